@@ -213,3 +213,53 @@ def decoded_as(binary, t, d, cache, e):
 def packet_is(p, e):
     """Packet object p holds exactly what encoded packet e decodes to."""
     return decoded_as(p.binary, p.packet_type, p.data, p.encode_cache, e)
+
+
+# --- C13 ---------------------------------------------------------------------------------------
+
+def first_token(x):
+    return x.split(',')[0].strip()
+
+
+def default_origins(env):
+    """The request's own scheme://host, also as seen through X-Forwarded-Proto/Host."""
+    out = []
+    if 'wsgi.url_scheme' in env and 'HTTP_HOST' in env:
+        out.append(env['wsgi.url_scheme'] + '://' + env['HTTP_HOST'])
+        if 'HTTP_X_FORWARDED_PROTO' in env or 'HTTP_X_FORWARDED_HOST' in env:
+            out.append(
+                first_token(env.get('HTTP_X_FORWARDED_PROTO', env['wsgi.url_scheme'])) + '://' +
+                first_token(env.get('HTTP_X_FORWARDED_HOST', env['HTTP_HOST'])))
+    return out
+
+
+def origin_allowed(cfg, env, o):
+    """Is origin o allowed by the configured policy cfg for the request env?"""
+    if cfg is None:
+        return o in default_origins(env)
+    if cfg == '*':
+        return True
+    if isinstance(cfg, str):
+        return o == cfg
+    if callable(cfg):
+        if cfg(o):
+            return True
+        return False
+    return o in cfg
+
+
+def origin_refused(cfg, env):
+    """The origin gate: checking is active, an Origin header is present and it is not allowed."""
+    if cfg == []:
+        return False
+    o = env.get('HTTP_ORIGIN')
+    if not o:
+        return False
+    return not origin_allowed(cfg, env, o)
+
+
+def acao_expected(cfg, env):
+    """Access-Control-Allow-Origin is emitted exactly for an allowed request Origin."""
+    if cfg == [] or 'HTTP_ORIGIN' not in env:
+        return False
+    return origin_allowed(cfg, env, env['HTTP_ORIGIN'])
